@@ -490,7 +490,7 @@ def enter(it, contract, entry, env, info, msg, nice=()):
     if entry == 'reply' and it.prog.get(name) is None: name = '%s::reply::reply' % contract
     try:
         if entry == 'query': r = run_entry(it, name, mk_deps(mut=False), env, msg)
-        elif entry == 'reply': r = run_entry(it, name, mk_deps(), env, msg)
+        elif entry in ('reply', 'migrate'): r = run_entry(it, name, mk_deps(), env, msg)
         else: r = run_entry(it, name, mk_deps(), env, info, msg)
     except PanicPath as p:
         st.kind = 'panic'; st.msg = p.msg; raise
@@ -564,3 +564,14 @@ def total(effs, kind, asset, pred=None):
     for e in effs:
         if e.kind == kind and e.asset is not None and same(e.asset, asset) and (pred is None or pred(e)): t = t + e.amount
     return t
+
+
+def opts(it, fields):
+    """every optional field of a configuration message independently present or absent: the full power set up to five fields, otherwise
+    {none, each field alone, all}.  fields: [(name, thunk)] -> {name: Some(thunk()) | None}"""
+    c = it.ctx; k = len(fields)
+    if k <= 5:
+        return {n: (SOME(t()) if c.branch(c.symbool('has_' + n), 'has_' + n) else NONE()) for n, t in fields}
+    m = c.sym('optmode', 8, hi=k + 1)
+    idx = c.choose([m == j for j in range(k + 2)], 'optmode')
+    return {n: (SOME(t()) if idx in (j + 1, k + 1) else NONE()) for j, (n, t) in enumerate(fields)}
